@@ -651,6 +651,8 @@ def check_decoding(ctx: Ctx, F: IlpFacts, rules: Dict[str, str], result_class: s
             rc, f"returns {result_class}(all decoded unitary alignments, continuum=self)",
             f"result is not {result_class}(decoded unitary alignments, continuum=self): found {norm(rc.func)}")
         d = kwarg(rc, "disorder")
+        if d is not None:
+            d = expand_locals(f.node, d, skip=(dis,))
         F.notes["cached_disorder"] = d
         chk("cached", d is not None and norm(d) in (f"np.sum({dis}) / {sn}.avg_num_annotations_per_annotator", f"{dis}.sum() / {sn}.avg_num_annotations_per_annotator",
                                                     f"sum({dis}) / {sn}.avg_num_annotations_per_annotator"),
